@@ -128,7 +128,7 @@ func C06(r *eng.Run) {
 	if !r.Thorough() {
 		shapes = dedupe(append(shapes, WordShapes()...))
 	}
-	shapes = dedupe(append(shapes, LimitShapes()...))
+	shapes = dedupe(append(append(shapes, LimitShapes()...), WeylShapes(64)...))
 	type cz struct{ c *big.Int }
 	var coefs []*big.Int
 	for _, c := range shapes {
